@@ -30,6 +30,49 @@ func onlyAlphabet(s, alphabet string, pad bool) bool {
 }
 
 func c13RoundTrip(c *core.Ctx, x []byte) {
+	c13RoundTripOnce(c, x)
+	// results handed out earlier stay what they were while the codecs work on other input
+	// (a decoder or encoder must not hand out storage it reuses for the next call)
+	if len(x) == 0 {
+		return
+	}
+	sh := gen.Shape{"len": len(x), "mod5": len(x) % 5, "mod3": len(x) % 3}
+	type held struct {
+		site string
+		got  []byte
+	}
+	var hs []held
+	e, e2, e3 := rm.B32Encode(x), rm.B32EncodeNoPad(x), rm.B64Encode(x)
+	for _, d := range c13Decoders() {
+		in := e
+		switch {
+		case d.width == 6:
+			in = e3
+		case !d.padded:
+			in = e2
+		}
+		if out, err := d.fn(in); err == nil {
+			hs = append(hs, held{d.site, out})
+		}
+	}
+	s1, s2, s3 := base32.EncodeToString(x), base32.EncodeToStringNoPadding(x), base64.EncodeToString(x)
+	y := make([]byte, len(x))
+	for i := range x {
+		y[i] = ^x[len(x)-1-i]
+	}
+	c13RoundTripOnce(c, y)
+	for _, h := range hs {
+		if !bytes.Equal(h.got, x) {
+			c.Violate(h.site, "earlier-result-changed-by-later-call", sh, x, fmt.Sprintf("the %d bytes decoded earlier differ from offset %d after other input was encoded and decoded", len(x), firstDiff(x, h.got)))
+		}
+	}
+	if s1 != e || s2 != e2 || s3 != e3 {
+		c.Violate("base32/base64 encoders", "earlier-result-changed-by-later-call", sh, x, "an encoded string changed after other input was encoded")
+	}
+	c.Bucket("results-retained-across-later-calls")
+}
+
+func c13RoundTripOnce(c *core.Ctx, x []byte) {
 	c.Eval(1)
 	sh := gen.Shape{"len": len(x), "mod5": len(x) % 5, "mod3": len(x) % 3}
 	c.Nontrivial([]byte("rt"), x)
@@ -233,6 +276,10 @@ func runC13(c *core.Ctx) {
 				}
 				sb.WriteByte(e[j])
 			}
+			// ... and after the last character (after the padding, if any)
+			for k := r.Pick(14); k > 0 && r.Chance(2, 3); k-- {
+				sb.WriteString([]string{"\n", "\r\n", "\r"}[r.Pick(3)])
+			}
 			s = sb.String()
 		case 3: // padding manipulations
 			x := r.Bytes(1 + r.Pick(30))
@@ -284,6 +331,10 @@ func runC13(c *core.Ctx) {
 			x := append([]byte{}, e...)
 			x[pos] = ch
 			c13Judge(c, d, string(x), "every-byte-value")
+			// the same string followed by line breaks, which the decoders skip: the verdict
+			// must not depend on how far a byte is from the end of the raw string
+			c13Judge(c, d, string(x)+"\n\n\n\n\n\n\n\n\n", "every-byte-value+trailing-lf")
+			c13Judge(c, d, string(x)+"\r\n\r\n\r\n\r\n", "every-byte-value+trailing-crlf")
 		}
 	})
 	c.Exhaustive("each of the 256 byte values substituted at every position of a canonical multi-quantum encoding, for every decoder")
